@@ -243,3 +243,84 @@ impl<V> IndexSpecImpl<&str> for HashMap<String, V> {
 // ---- A-slice-contains (same text as unit hashmap)
 pub assume_specification<T: PartialEq> [<[T]>::contains](s: &[T], x: &T) -> (r: bool)
     ensures T::obeys_eq_spec() ==> r == exists|i: int| 0 <= i < s@.len() && (#[trigger] s@[i]).eq_spec(x);
+
+// ---- facades needed only by the in-place block `rs_switch_block` (then-branch of `if is_first_draw`, R8.iflift + R10.foriter)
+impl<V> HashMap<String, V> {
+    #[verifier::external_body]
+    pub fn insert(&mut self, k: String, v: V) -> (r: Option<V>)
+        ensures final(self)@ == old(self)@.insert(k@, v),
+    { unimplemented!() }
+    #[verifier::external_body]
+    pub fn get(&self, k: &str) -> (r: Option<&V>)
+        ensures
+            self@.contains_key(k@) ==> r is Some && *r->Some_0 == self@[k@],
+            !self@.contains_key(k@) ==> r is None,
+    { unimplemented!() }
+    /// A-hashmap-iter: `iter_mut()` hands out every entry (key, current value) once, in an unspecified order; what the
+    /// map holds afterwards is left unspecified here (the block's contract does not need it)
+    #[verifier::external_body]
+    pub fn iter_mut(&mut self) -> (r: IterMut<'_, V>)
+        ensures r.pos() == 0, forall|i: int| 0 <= i < r.all().len() ==> has_entry(old(self)@, #[trigger] r.all()[i]),
+    { unimplemented!() }
+}
+pub open spec fn has_entry<V>(m: Map<Seq<char>, V>, e: (Seq<char>, V)) -> bool { m.contains_key(e.0) && m[e.0] == e.1 }
+
+#[verifier::external_body]
+#[verifier::reject_recursive_types(V)]
+pub struct IterMut<'a, V> { _p: core::marker::PhantomData<&'a mut V> }
+impl<'a, V> IterMut<'a, V> {
+    pub uninterp spec fn all(&self) -> Seq<(Seq<char>, V)>;
+    pub uninterp spec fn pos(&self) -> int;
+    #[verifier::external_body]
+    pub fn vx_more(&self) -> (r: bool)
+        ensures r == (self.pos() < self.all().len()),
+    { unimplemented!() }
+    #[verifier::external_body]
+    pub fn vx_next(&mut self) -> (r: (&'a String, &'a mut V))
+        requires 0 <= old(self).pos() < old(self).all().len(),
+        ensures
+            final(self).all() == old(self).all(), final(self).pos() == old(self).pos() + 1,
+            r.0@ == old(self).all()[old(self).pos()].0, *r.1 == old(self).all()[old(self).pos()].1,
+    { unimplemented!() }
+}
+/// iterator over `&HashMap<String, V>` (R10.foriter): only its length matters here
+#[verifier::external_body]
+#[verifier::reject_recursive_types(V)]
+pub struct MapIt<'a, V> { _p: core::marker::PhantomData<&'a V> }
+impl<'a, V> MapIt<'a, V> {
+    pub uninterp spec fn len(&self) -> int;
+    pub uninterp spec fn pos(&self) -> int;
+    #[verifier::external_body]
+    pub fn vx_more(&self) -> (r: bool)
+        ensures r == (self.pos() < self.len()),
+    { unimplemented!() }
+    #[verifier::external_body]
+    pub fn vx_next(&mut self) -> (r: (&'a String, &'a V))
+        requires 0 <= old(self).pos() < old(self).len(),
+        ensures final(self).len() == old(self).len(), final(self).pos() == old(self).pos() + 1,
+    { unimplemented!() }
+}
+/// R10.foriter: `for PAT in EXPR {B}` -> `{ let mut it = vx_iter(EXPR); while it.vx_more() { let PAT = it.vx_next(); B } }`
+pub trait VxIntoIter: Sized {
+    type It;
+    spec fn vx_rel(self, it: Self::It) -> bool;
+    fn vx_into(self) -> (r: Self::It) ensures self.vx_rel(r);
+}
+impl<'a, V> VxIntoIter for IterMut<'a, V> {
+    type It = IterMut<'a, V>;
+    open spec fn vx_rel(self, it: IterMut<'a, V>) -> bool { it == self }
+    fn vx_into(self) -> (r: IterMut<'a, V>) { self }
+}
+impl<'a, V> VxIntoIter for &'a HashMap<String, V> {
+    type It = MapIt<'a, V>;
+    open spec fn vx_rel(self, it: MapIt<'a, V>) -> bool { it.pos() == 0 && it.len() >= 0 }
+    #[verifier::external_body]
+    fn vx_into(self) -> (r: MapIt<'a, V>) { unimplemented!() }
+}
+pub fn vx_iter<I: VxIntoIter>(i: I) -> (r: I::It)
+    ensures i.vx_rel(r),
+{ i.vx_into() }
+
+// ---- A-std-extra (same text as unit zarrevents): `Option<&T>::copied`
+pub assume_specification<'a, T: Copy> [Option::<&'a T>::copied](o: Option<&'a T>) -> (r: Option<T>)
+    ensures r == (match o { Some(x) => Some(*x), None => None::<T> });
